@@ -35,7 +35,18 @@ DYN = "wannierberri/calculators/dynamic.py"
 COV = "wannierberri/formula/covariant.py"
 TABC = "wannierberri/calculators/tabulate.py"
 TBPY = "wannierberri/system/system_tb_py.py"
+FDIF = "wannierberri/system/__finite_differences.py"
+SKP = "wannierberri/system/system_kp.py"
+DKKF = "wannierberri/data_K/data_K_k.py"
 MUTANTS = [
+    dict(prop="C31", name="Derivative3D: reduced instead of Cartesian b", file=FDIF, old="        return sum(wk * self.function(k + bk_red)[..., None] * bk_cart\n                for wk, bk_red, bk_cart in zip(self.wk, self.bk_red, self.bk_cart))", new="        return sum(wk * self.function(k + bk_red)[..., None] * bk_red.reshape((1,) * (bk_cart.ndim - 1) + (3,))\n                for wk, bk_red, bk_cart in zip(self.wk, self.bk_red, self.bk_cart))"),
+    dict(prop="C31", name="Derivative3D: evaluates at k - b", file=FDIF, old="self.function(k + bk_red)[..., None] * bk_cart", new="self.function(k - bk_red)[..., None] * bk_cart"),
+    dict(prop="C31", name="find_shells: weights not rescaled (revert of half the fix)", file=FDIF, old="if abs(w) > 1e-8]) / scale**2\n", new="if abs(w) > 1e-8])\n"),
+    dict(prop="C31", name="find_shells: revert fix", file=FDIF, old="    basis = basis / scale\n", new="    scale = 1.0\n"),
+    dict(prop="C31", name="SystemKP: bk_cart from bki (dk forgotten)", file=SKP, old="        self.bk_cart = self.bk_red.dot(self.recip_lattice)", new="        self.bk_cart = bki.dot(self.recip_lattice)"),
+    dict(prop="C31", name="SystemKP: second derivative built on Ham", file=SKP, old="            self.der2Ham = Derivative3D(self.derHam, bk_red=self.bk_red, bk_cart=self.bk_cart, wk=self.wk)", new="            self.der2Ham = Derivative3D(self.Ham, bk_red=self.bk_red, bk_cart=self.bk_cart, wk=self.wk)"),
+    dict(prop="C31", name="SystemKP: reduced k not folded", file=SKP, old="            self.k_ham_from_red = lambda k: np.array(self.k_to_1BZ(k))", new="            self.k_ham_from_red = lambda k: np.array(k)"),
+    dict(prop="C31", name="Data_K_k.Xbar: der 3 uses der2Ham", file=DKKF, old="                elif der == 3:\n                    fun = self.system.der3Ham", new="                elif der == 3:\n                    fun = self.system.der2Ham"),
     dict(prop="C32", name="pythtb: h.c. partner without conjugation", file=TBPY, old="                Ham_R[inR, j, i] += np.conjugate(amplitude)", new="                Ham_R[inR, j, i] += amplitude"),
     dict(prop="C32", name="pythtb: partner placed at +R", file=TBPY, old="                Ham_R[inR, j, i] += np.conjugate(amplitude)", new="                Ham_R[iR, j, i] += np.conjugate(amplitude)"),
     dict(prop="C32", name="pythtb: repeated hops overwrite", file=TBPY, old="                Ham_R[iR, i, j] += amplitude\n", new="                Ham_R[iR, i, j] = amplitude\n"),
